@@ -26,6 +26,8 @@ TRUSTED = [
     "C-impl: format/config Encoder bytes vs Model/ConfigEnc.encode on every encode case; config.Config.Unmarshal field values vs the reader models on every interp case",
     "C-git: Spec/GitConfig.git_config_parse vs `git config --file f --list --null` on every decode/encode file (NUL-free), git_bool/git_int vs `git config --type=bool/int` on the interp strings; disagreements counted as spec_mismatches",
     "the gcfg decoder is not modelled: go-git Decode vs git --list is a differential test only (suites decode, encode read-back, marshal read-back)",
+    "git is asked one file per process, or (process start-up is slow) 16 files per process concatenated with marker sections: only for texts that start with a section header and end at top level (everything the encoder emits; decode files S accepts), a batched answer is used only if it splits exactly at the markers, and every failing encode/marshal case and every decode segment that differs from S's prediction is re-read alone",
+    "in the thorough tier at most 700 files that S rejects are put to git per run (the rest are counted as files_not_put_to_git and yield no requirement)",
     "S is a transcription from memory of git 2.39's config.c / parse.c, trusted only as far as C-git exercises it; S answers `nul` on input containing a NUL byte (C strings)",
 ]
 ASSUMPTIONS = ["strings.NewReplacer with single-byte patterns is a per-byte map (Go stdlib byte replacer)",
@@ -59,8 +61,8 @@ def git_batch(d, jobs):
     All git processes are started from four small /bin/sh scripts (spawning from the big python process is slow)."""
     keys = list(jobs)
     procs = []
-    for w in range(4):
-        part = keys[w::4]
+    for w in range(8):
+        part = keys[w::8]
         if not part:
             continue
         sp = os.path.join(d, "run%d.sh" % w)
@@ -70,7 +72,7 @@ def git_batch(d, jobs):
                 f.write("/usr/bin/git config --file '%s' %s >'%s.out' 2>/dev/null; echo $? >'%s.rc'\n" % (path, args, path, path))
         procs.append(subprocess.Popen(["/bin/sh", sp], env=GIT_ENV, cwd=d, stdout=subprocess.DEVNULL, stderr=subprocess.DEVNULL))
     for p in procs:
-        p.wait(timeout=600)
+        p.wait(timeout=6000)
     res = {}
     for k in keys:
         path = jobs[k][0]
@@ -99,12 +101,15 @@ def git_list_many(ctx, blobs, tag):
 SEP = b"[zzsep]\n\tn = %d\n"
 
 
-def git_list_concat(ctx, blobs, tag, solo=()):
+def git_list_concat(ctx, blobs, tag, solo=(), eligible=None):
     """like git_list_many, but 16 files per git process: the texts are concatenated with a marker section after each
     (git starts slowly on a busy machine).  Sound only for texts that start with a section header and end at top level
     — true of everything the encoder emits; anything else makes the group fall back to one process per file, and
     the callers re-check every failing case alone."""
-    ids = [i for i in blobs if i not in solo and b"\0" not in blobs[i] and (blobs[i] == b"" or (blobs[i][:1] == b"[" and blobs[i][-1:] == b"\n"))]
+    if eligible is not None:
+        ids = [i for i in blobs if i in eligible]
+    else:
+        ids = [i for i in blobs if i not in solo and b"\0" not in blobs[i] and (blobs[i] == b"" or (blobs[i][:1] == b"[" and blobs[i][-1:] == b"\n"))]
     res = {}
     groups = [ids[k:k + 16] for k in range(0, len(ids), 16)]
     big = git_list_many(ctx, {n: b"".join(blobs[i] + SEP % i for i in g) for n, g in enumerate(groups)}, tag + "-cat")
@@ -126,7 +131,7 @@ def git_list_concat(ctx, blobs, tag, solo=()):
             ok = ok and k == len(g) and not cur
         if ok:
             res.update(parts)
-    rest = {i: blobs[i] for i in blobs if i not in res}
+    rest = {i: blobs[i] for i in blobs if i not in res and (eligible is None or i in eligible or i in solo)}
     res.update(git_list_many(ctx, rest, tag))
     return res
 
@@ -456,7 +461,7 @@ def gen_file_value(rng):
     if k == "quoted":
         return b'"' + rng.choice([w, b" " + w + b" ", w + b" # no comment", b"a;b", b"", b"  "]) + b'"'
     if k == "partial":
-        return rng.choice([b'a"b c"d', b'"a" "b"', b'x "  y  " z', b'""x""', b'a""', b'"a"b', b'pre" ; "post'])
+        return rng.choice([b'a"b c"d', b'"a" "b"', b'x "  y  " z', b'""x""', b'a""', b'"a"b', b'pre" ; "post', b'"" x', b'""\tx y'])
     if k == "escapes":
         return rng.choice([b'a\\tb', b'"a\\nb"', b'a\\\\b', b'\\"q\\"', b'"x\\bz"', b'\\n', b'"\\t\\t"', b'a\\"b', b'\\\\', b'"a\\\\"'])
     if k == "cont":
@@ -602,7 +607,28 @@ class Decode(Suite):
     def oracle(self, ctx, cases, impl, model):
         """every file git accepts: go-git accepts it and reads the same ordered values per (section, subsection, key)"""
         blobs = {c["id"]: bytes.fromhex(c["file"]) for c in cases}
-        got = git_list_many(ctx, blobs, "dec")
+        # S's reading of every file (also used for C-git in `extra`); it only decides HOW git is asked:
+        # files S accepts are read 16 per git process (marker sections in between) when they end at top level and
+        # every entry has a section; a segment that differs from S's prediction, everything S rejects and everything
+        # else is read by its own git process.  Every answer used below comes from the git binary.
+        ids = [c["id"] for c in cases]
+        outs = ctx.coq_eval("From GoGit Require Import Model.ConfigEnc Spec.GitConfig.", ['c48_spec_parse %s' % coq_chunks(blobs[i]) for i in ids], chunk=140)
+        self.spec_out = dict(zip(ids, outs))
+        elig = set()
+        for i in ids:
+            f, o = blobs[i], self.spec_out[i] or ""
+            if o.startswith("( ok") and f.endswith(b"\n") and not f.endswith(b"\\\n") and not f.startswith(b"\xef") and b"\0" not in f \
+               and all(b"." in bytes.fromhex(n) for n in __import__("re").findall(r"\( x([0-9a-f]*) ", o)):
+                elig.add(i)
+        got = git_list_concat(ctx, blobs, "dec", eligible=elig)
+        redo = {i: blobs[i] for i in elig if i not in got or render_entries(got[i]) != self.spec_out[i]}
+        cap = 100000 if ctx.tier == "quick" else 700          # thorough: the exhaustive bucket is mostly files S rejects
+        rejected = [i for i in ids if i not in elig][:cap]
+        redo.update({i: blobs[i] for i in rejected})
+        got.update(git_list_many(ctx, redo, "dec-solo"))
+        self.unasked = [i for i in ids if i not in got]
+        for i in self.unasked:
+            got[i] = None                                     # not asked: no requirement is derived from these files
         self.git_seen = got
         fails = {}
         for c in cases:
@@ -633,16 +659,17 @@ class Decode(Suite):
         if h == w:
             return set()
         import itertools
-        tf = {"continuation": lambda v: v.replace(b"\n", b""),      # go-git keeps a newline where git joins continuation lines
-              "tab-kept": lambda v: v.replace(b"\t", b" "),          # git turns an unquoted TAB into one space, go-git keeps it
-              "cr": lambda v: v.replace(b"\r", b"").replace(b" ", b"")}  # go-git drops every CR; git keeps a quoted one / blanks an unquoted inner one
+        tf = [("continuation", lambda v: v.replace(b"\n", b"")),     # go-git keeps a newline where git joins continuation lines
+              ("tab-kept", lambda v: v.replace(b"\t", b" ")),         # git turns an unquoted TAB into one space, go-git keeps it
+              ("lead-blank", lambda v: v.lstrip(b" \t")),             # blanks right after an empty "" pair: git drops them (value still empty), go-git keeps them
+              ("cr", lambda v: v.replace(b"\r", b"").replace(b" ", b""))]  # go-git drops every CR; git keeps a quoted one / blanks an unquoted inner one
         for k in (1, 2, 3):
-            for sub in itertools.combinations(sorted(tf), k):
+            for sub in itertools.combinations(tf, k):
                 x, y = h, w
-                for t in sub:
-                    x, y = tf[t](x), tf[t](y)
+                for _, t in sub:
+                    x, y = t(x), t(y)
                 if x == y:
-                    return set(sub)
+                    return {n for n, _ in sub}
         return None
 
     @classmethod
@@ -670,10 +697,11 @@ class Decode(Suite):
         kind = reason.split(":", 1)[0]
         if kind == "rejects":
             return self.reject_class(f, reason)
+        import re
         need = {"valueless": True, "continuation": "cont" in feats, "tab-kept": b"\t" in f, "cr": "cr" in feats,
-                "empty-subsection": b'""]' in f}
+                "empty-subsection": b'""]' in f, "lead-blank": bool(re.search(rb'=[ \t]*(?:"")+[ \t]', f))}
         names = {"valueless": "dec-valueless-key", "continuation": "dec-continuation-newline", "tab-kept": "dec-unquoted-tab",
-                 "cr": "dec-cr", "empty-subsection": "dec-empty-subsection"}
+                 "cr": "dec-cr", "empty-subsection": "dec-empty-subsection", "lead-blank": "dec-blanks-after-empty-quotes"}
         ks = kind.split("+")
         if not all(need.get(k) for k in ks):
             return None
@@ -701,8 +729,15 @@ class Decode(Suite):
         return None
 
     def extra(self, ctx, cases, impl, model):
-        ids = [c["id"] for c in cases][:(420 if ctx.tier == "quick" else 100000)]
-        ev = spec_vs_git(ctx, {i: bytes.fromhex(cases[i]["file"]) for i in ids}, self.git_seen, "decode")
+        asked = [c["id"] for c in cases if c["id"] not in set(self.unasked)]
+        bad = 0
+        for i in asked:
+            want = render_entries(self.git_seen[i])
+            if self.spec_out.get(i) != want:
+                bad += 1
+                if bad <= 3:
+                    ctx.notes.append("spec_mismatch (decode) git_config_parse vs git on %s: S=%s git=%s" % (cases[i]["file"][:400], str(self.spec_out.get(i))[:300], want[:300]))
+        ev = {"spec_vs_git_cases": len(asked), "spec_mismatches": bad, "files_not_put_to_git": len(self.unasked)}
         ev["git_accepted"] = sum(1 for c in cases if self.git_seen.get(c["id"]) is not None)
         ev["git_accepted_with_entries"] = sum(1 for c in cases if self.git_seen.get(c["id"]))
         return ev
